@@ -15,6 +15,8 @@ import (
 )
 
 type Node struct {
+	mu     sync.Mutex
+	script string
 	cmd   *exec.Cmd
 	in    io.WriteCloser
 	out   *bufio.Reader
@@ -38,6 +40,14 @@ func StartNode(version string, extra ...string) *Node {
 	n := &Node{bin: nodeBin(version)}
 	n.args = append([]string{"--experimental-vm-modules", "--no-warnings", "--stack-size=900"}, extra...)
 	n.args = append(n.args, filepath.Join(verifRoot, "js", "worker.js"))
+	n.start()
+	return n
+}
+
+// StartScript starts another JSON-lines worker script (e.g. the Chrome driver) under Node 20.
+func StartScript(script string) *Node {
+	n := &Node{bin: nodeBin(""), script: script}
+	n.args = []string{filepath.Join(verifRoot, "js", script)}
 	n.start()
 	return n
 }
@@ -78,6 +88,8 @@ func (n *Node) Call(req interface{}, resp interface{}) {
 // CallT is Call with a watchdog: if the worker does not answer in time it is killed and
 // restarted and false is returned (the caller decides what a hang means).
 func (n *Node) CallT(req interface{}, resp interface{}, limit time.Duration) bool {
+	n.mu.Lock()
+	defer n.mu.Unlock()
 	if n.calls > 4000 {
 		n.Close()
 		n.start()
@@ -125,6 +137,11 @@ type NodePool struct {
 	nodes   map[int]*Node
 	version string
 	extra   []string
+	script  string
+}
+
+func NewScriptPool(script string) *NodePool {
+	return &NodePool{nodes: map[int]*Node{}, script: script}
 }
 
 func NewNodePool(version string, extra ...string) *NodePool {
@@ -136,7 +153,11 @@ func (p *NodePool) Get(w int) *Node {
 	defer p.mu.Unlock()
 	n := p.nodes[w]
 	if n == nil {
-		n = StartNode(p.version, p.extra...)
+		if p.script != "" {
+			n = StartScript(p.script)
+		} else {
+			n = StartNode(p.version, p.extra...)
+		}
 		p.nodes[w] = n
 	}
 	return n
